@@ -53,6 +53,16 @@ def pFeat : P (Feat Float32) := do
   let z ← nat; let file ← nat; let ims ← f32
   pure { peptide := pep, label := label, peptideQ := q, alignedRt := rt, calcmass := cm, charge := z, fileId := file, ims := ims }
 
+/-- feature list: `x n (10 tokens)…` — the last two are `expmass` and `isotope_error`, which the model does NOT take
+    (the LFQ windows are centred on the peptide's theoretical mass, `calcmass`, only) — or the older `n (8 tokens)…` -/
+def pFeats : P (List (Feat Float32)) := do
+  let t ← tok
+  if t == "x" then
+    list (do let f ← pFeat; let _ ← f32; let _ ← f32; pure f)
+  else match t.toNat? with
+    | some n => listN pFeat n
+    | none => failure
+
 structure World where
   withMob : Bool
   st : Settings Float32 Float
@@ -74,7 +84,7 @@ def pWorld : P World := do
   let zLo ← nat
   let zHi ← nat
   let peptides ← list bytes
-  let feats ← list pFeat
+  let feats ← pFeats
   let aligns ← list (do let a ← f32; let b ← f32; let c ← f32; pure ({ maxRt := a, slope := b, intercept := c } : Align Float32))
   let spectra ← list (do
     let file ← nat
@@ -304,10 +314,17 @@ def bigPeptide (seed i : Nat) : List UInt8 × Feat Float32 × List (Spectrum Flo
   let d : Float32 := f32b 978433815   -- 0.0008
   let feat : Feat Float32 := { peptide := i, label := 1, peptideQ := 0, alignedRt := rt, calcmass := cm, charge := 2,
                                fileId := i % 2, ims := 1 }
+  -- every third PSM was picked on the M+1 peak and measured 15 ppm high (expmass = calc + NEUTRON + 15 ppm); the scans then
+  -- also carry noise where windows centred on `expmass - isotope_error` would be (15 ppm away, tolerance 10 ppm)
+  let shifted := (r >>> 20) % 3 == 0
+  let expmass : Float32 := (cm + env32.neutron) + cm * f32b 930850946   -- 0.000015
   let scans := [(rt + (-d), (0.5 : Float32)), (rt + 0, 1), (rt + d, 0.5)].map fun (t, wk) =>
     ({ fileId := i % 2, scanStart := t,
-       peaks := [(0, (1 : Float32)), (1, 0.75), (2, 0.5)].map fun (iso, env) =>
-         { mass := (cm + Float32.ofNat iso * env32.neutron) / 2, intensity := base * wk * env, mobility := 1 } } : Spectrum Float32)
+       peaks := ([(0, (1 : Float32)), (1, 0.75), (2, 0.5)].map fun (iso, env) =>
+         ({ mass := (cm + Float32.ofNat iso * env32.neutron) / 2, intensity := base * wk * env, mobility := 1 } : Peak Float32)) ++
+         (if shifted then [0, 1, 2].map fun iso =>
+           ({ mass := ((expmass - env32.neutron) + Float32.ofNat iso * env32.neutron) / 2, intensity := base * wk * 2,
+              mobility := 1 } : Peak Float32) else []) } : Spectrum Float32)
   (seq, feat, scans)
 
 def identityAlign : Align Float32 := { maxRt := 1, slope := 1, intercept := 0 }
@@ -343,7 +360,7 @@ def handle (op : String) (args impl : List String) : Option Reply :=
   match op with
   | "lfqmap" => do
     let (ppm, mob, zLo, zHi, fs) ← run (do
-      let ppm ← f32; let mob ← f32; let zLo ← nat; let zHi ← nat; let fs ← list pFeat
+      let ppm ← f32; let mob ← f32; let zLo ← nat; let zHi ← nat; let fs ← pFeats
       pure (ppm, mob, zLo, zHi, fs)) args
     let fm := buildFeatureMap env32 ppm mob zLo zHi fs
     let canon (rs : List (Range Float32)) := (rs.map rangeToks).mergeSort lexLe
